@@ -427,6 +427,26 @@ func bidEntries() []Entry {
 			},
 			Changed: []string{"extBidConvActive"}, FinalHas: []string{"extBidConvExpired"}, FinalLacks: []string{"extBidConvActive", "extBidOffer_ACTIVE"},
 		},
+		{
+			// TWO conversations (bidders B and C on one domain) with the same deadline: it passes for both in
+			// the same block, so the expiry hooks of BeginBlock/EndBlock handle two records in one pass. (Added
+			// after a seeded change - the tx session of the expiry loop hoisted out of the loop - escaped the
+			// one-conversation histories.)
+			Scenario: &harness.Scenario{
+				Kind:  bid_action.BID_CREATE.String(),
+				Note:  "multi-two-conversations-expire-in-one-block",
+				World: func() *harness.World { return harness.NewWorld("bid-expires2", 4, 3) },
+				Prefix: func(w *harness.World) []harness.BlockSpec {
+					bs, _ := bidOpen(w, 7)
+					return bs
+				},
+				Target: func(w *harness.World) *harness.TxSpec {
+					return BidCreate("", w.Users[0].Addr, bidDomain, bid_data.BidAssetOns, w.Users[2], olt(25), bidDeadline(w, 7), "bid2")
+				},
+				After: 5,
+			},
+			Changed: []string{"extBidConvActive"}, FinalHas: []string{"extBidConvExpired"}, FinalLacks: []string{"extBidConvActive", "extBidOffer_ACTIVE"},
+		},
 		bidScenario(bid_action.BID_CONTER_OFFER, "counter-offer", nil, func(w *harness.World, id bid_data.BidConvId) *harness.TxSpec {
 			return BidCounterOffer(id, w.Users[0], olt(30), "counter")
 		}, 1, Entry{Changed: []string{"extBidOffer_ACTIVE", "extBidOffer_INACTIVE"}}),
